@@ -124,23 +124,23 @@ def send (c : Cfg) (s : State) (msg : Bytes) : State × Out :=
     if l > c.maxSize then (s, ⟨.tooLarge, none⟩)
     else if s.pendingSize + l > c.maxSize then
       -- `m.pendingTimer.Cancel(); m.clearPending()`
-      let (s1, f) := clearPending c { s with timerArmed := false }
-      (armIfFirst { s1 with pendingSize := s1.pendingSize + l, pending := s1.pending ++ [msg] },
-        ⟨.ok, some f⟩)
+      let r := clearPending c { s with timerArmed := false }
+      (armIfFirst { r.1 with pendingSize := r.1.pendingSize + l, pending := r.1.pending ++ [msg] },
+        ⟨.ok, some r.2⟩)
     else
       (armIfFirst { s with pendingSize := s.pendingSize + l, pending := s.pending ++ [msg] },
         ⟨.ok, none⟩)
 
-/-- the `pendingTimer` callback; enabled only while the timer is armed, and one-shot -/
+/-- the body of the `pendingTimer` callback -/
+def callback (c : Cfg) (s : State) : State × Out :=
+  if s.closed then (s, ⟨.closed, none⟩)
+  else if s.pending.length = 0 then (s, ⟨.ok, none⟩)
+  else ((clearPending c s).1, ⟨.ok, some (clearPending c s).2⟩)
+
+/-- the timer fires: enabled only while the timer is armed, and one-shot -/
 def fire (c : Cfg) (s : State) : State × Out :=
-  if !s.timerArmed then (s, ⟨.notArmed, none⟩)
-  else
-    let s := { s with timerArmed := false }
-    if s.closed then (s, ⟨.closed, none⟩)
-    else if s.pending.length = 0 then (s, ⟨.ok, none⟩)
-    else
-      let (s1, f) := clearPending c s
-      (s1, ⟨.ok, some f⟩)
+  if s.timerArmed then callback c { s with timerArmed := false }
+  else (s, ⟨.notArmed, none⟩)
 
 /-- `Close` -/
 def close (c : Cfg) (s : State) : State × Out :=
